@@ -15,6 +15,8 @@ impl Pager {
     pub open spec fn alloc(&self, p: int) -> bool { 0 <= p < 65536 && self.bitmap.bit(p) }
     pub open spec fn next(&self) -> int { self.meta.next_page_id as int }
     pub open spec fn bytes(&self) -> Seq<u8> { file_bytes(&self.file) }
+    /// the bitmap page stored in the file is the in-memory bitmap (what a reopen will load)
+    pub open spec fn disk_synced(&self) -> bool { self.bytes().len() >= 16384 && self.bytes().subrange(8192, 16384) == self.bitmap.data@ }
     /// representation invariant of the allocator
     pub open spec fn wf(&self) -> bool {
         &&& 2 <= self.next() <= 65536
